@@ -63,7 +63,7 @@ def handleKZG (r : Req) : R String := do
     let vs ← asFes (← need r "vs")
     let πs ← kzgProofs r
     let rs ← asFes (← need r "rs")
-    pure <| okReply [("b", vBool (KZG.batchCheck vk cs zs vs πs rs))]
+    pure <| exceptReply (KZG.batchCheck vk cs zs vs πs rs) fun b => [("b", vBool b)]
   | _ => .error "unknown-op"
 
 def handle (p : Nat) (r : Req) : String :=
